@@ -103,11 +103,16 @@ _JOIN_ASSUME = ["time: one symbolic non-decreasing clock; every clock reading ma
 _UNITE_WIDE = dict(mod="v2", pkg="join/unite", overlay="harness/v2/unite", harness="^VerifC03_unite_",
                    params=dict(quick=dict(JS=[5, 6], K=[2], T=[1]), thorough=dict(JS=[5, 6, 7, 8], K=[2], T=[1])))
 
+# one LARGE JoinSize (5000: above any plausible pre-allocation cap), lengths around the boundaries, concrete elements: the paths
+# are the length / mode / select choices only (no symbolic data, no solver work) - a boundary instance, not a proof of anything beyond it
+_UNITE_LARGE = dict(mod="v2", pkg="join/unite", overlay="harness/v2/unite", harness="^VerifC03_unite_untimed$",
+                    params=dict(quick=dict(JS=[5000], K=[2], T=[1]), thorough=dict(JS=[5000], K=[3], T=[1])))
+
 def _join_groups(tier_params):
     return [
         dict(mod="v2", pkg="join", overlay="harness/v2/join", harness="^VerifC03_join_", params=tier_params("join")),
         dict(mod="v2", pkg="join/unite", overlay="harness/v2/unite", harness="^VerifC03_unite_", params=tier_params("unite")),
-        _UNITE_WIDE,
+        _UNITE_WIDE, _UNITE_LARGE,
         dict(mod="v1", pkg="join", overlay="harness/v1/join", harness="^VerifC03_v1join_normal", params=tier_params("join")),
     ]
 
@@ -143,7 +148,7 @@ PROPS["C11"] = dict(
     level_note="Bounds in evidence.bounds. Trusted: as C03.",
     technique="symbolic execution of go/ssa with forked select outcomes; SMT (z3)",
     bounds=_JOIN_BOUNDS, assumptions=_JOIN_ASSUME,
-    groups=[dict(mod="v2", pkg="join/unite", overlay="harness/v2/unite", harness="^VerifC03_unite_", params=_jp("unite")), _UNITE_WIDE])
+    groups=[dict(mod="v2", pkg="join/unite", overlay="harness/v2/unite", harness="^VerifC03_unite_", params=_jp("unite")), _UNITE_WIDE, _UNITE_LARGE])
 
 _LIM = dict(quick=dict(M=[0, 1, 2, 3, 4, 5]), thorough=dict(M=[0, 1, 2, 3, 4, 5, 6, 7]))
 for _pid in ("C04", "C12"):
